@@ -1624,6 +1624,8 @@ def do_define_meson(regex: T.Pattern[str], line: str, confdata: 'ConfigurationDa
 def do_define_cmake(line: str, confdata: 'ConfigurationData', at_only: bool,
                     subproject: T.Optional[SubProject] = None) -> str:
     cmake_bool_define = 'cmakedefine01' in line
+    # Drop the indentation, so that line[1:] is what follows the '#'
+    line = line.lstrip()
 
     def get_cmake_define(line: str, confdata: 'ConfigurationData') -> str:
         arr = line[1:].split()
